@@ -370,18 +370,29 @@ func c10Oracle(c c10Case) (v ev.Verdict) {
 		}
 		if gotOut.failed || !bytes.Equal(gotOut.enc, plain) {
 			key := fmt.Sprintf("payload:ht%d:NEA%d", op.HT, ctx.EA)
-			if protected && ctx.EA != 0 {
-				body := pdu[7:]
-				for dir := uint32(0); dir <= 1; dir++ {
-					p, _ := ctx.Cipher(used, dir, body)
-					if !plainOutcomeOf(p).same(gotOut) {
-						continue
-					}
-					if !refsec.Ciphered(op.HT) {
-						key = "D14:integrity-only-message-deciphered"
-					} else if dir == refsec.DirUplink {
-						key = "D2:deciphered-with-direction-uplink"
-					}
+			if protected && ctx.EA != 0 && len(wire) == len(pdu) {
+				// Root-cause label. NASDecode deciphers in place, so the buffer handed to it shows what it did to
+				// the payload; compare that with what particular wrong computations would have produced. (If a
+				// future implementation stops working in place nothing matches and the generic key stays.)
+				body, after := pdu[7:], wire[7:]
+				is := func(cnt uint32, dir uint32) bool {
+					p, _ := ctx.Cipher(cnt, dir, body)
+					return bytes.Equal(p, after)
+				}
+				switch {
+				case !refsec.Ciphered(op.HT) && !bytes.Equal(after, body):
+					key = "D14:integrity-only-message-deciphered"
+				case !refsec.Ciphered(op.HT):
+				case is(used, refsec.DirUplink):
+					key = "D2:deciphered-with-direction-uplink"
+				case bytes.Equal(after, body):
+					key = "cipher:not-deciphered"
+				case is(used&0xff, refsec.DirDownlink):
+					key = "cipher:count-without-overflow"
+				case is((used+1)&0xffffff, refsec.DirDownlink), is((used-1)&0xffffff, refsec.DirDownlink):
+					key = "cipher:count-off-by-one"
+				case is(last, refsec.DirDownlink):
+					key = "cipher:count-of-previous-message"
 				}
 			}
 			if perr != nil && key[0] != 'D' {
